@@ -1,23 +1,31 @@
 #!/bin/sh
 # usage: seedsweep.sh <out-file> <seed-id> [...]   seed-id = Cxx-N (directory under /verif/seeded)
-# For each seed: apply patch.diff to /repo, run the property's quick check, restore /repo.
-# Never leaves /repo modified. Evidence of these runs on MODIFIED trees goes to .work/sweep-evidence, never to evidence/.
+# Self-test of the checks against the seeded changes. For each seed: apply patch.diff to a SCRATCH git worktree
+# of /repo's HEAD (under /tmp, removed at the end), run the property's quick check against that worktree
+# (govc -repo), reset the worktree. /repo itself is never touched, so normal work can go on meanwhile.
+# Evidence of these runs on MODIFIED trees goes to .work/sweep-evidence, never to evidence/.
 out="$1"; shift
 : > "$out"
+wt=/tmp/sweepwt_$$
+git -C /repo worktree prune
+git -C /repo worktree add -q --detach "$wt" HEAD || { echo "worktree-failed" >> "$out"; exit 3; }
+trap 'git -C /repo worktree remove --force "$wt" >/dev/null 2>&1' EXIT
+cd /verif || exit 3
+mkdir -p .work/sweep-evidence
 for s in "$@"; do
   prop=${s%%-*}
   dir=/verif/seeded/$s
-  cd /repo || exit 3
-  git diff --quiet || { echo "$s repo-dirty" >> "$out"; exit 3; }
-  if ! git apply "$dir/patch.diff" 2>/dev/null; then echo "$s PATCH-DOES-NOT-APPLY" >> "$out"; continue; fi
-  cd /verif
+  if ! git -C "$wt" apply "$dir/patch.diff" 2>/dev/null; then echo "$s PATCH-DOES-NOT-APPLY" >> "$out"; continue; fi
+  targets="rt"
+  [ -f "targets/$prop" ] && targets=$(cat "targets/$prop")
   start=$(date +%s)
-  VERIF_EVIDENCE_DIR=/verif/.work/sweep-evidence ./check "$prop" quick > /verif/.work/sweep.log 2>&1
+  bin/govc -repo "$wt" -prop "$prop" -tier quick -targets "$targets" -evidence ".work/sweep-evidence/$prop.json" > ".work/sweep_$$.log" 2>&1
   rc=$?
   end=$(date +%s)
-  v=$(grep -c "^VIOLATION" /verif/.work/sweep.log)
-  first=$(grep "^VIOLATION" /verif/.work/sweep.log | sed 's/.*obligation=\([^ ]*\).*/\1/' | sed 's/^rt\[[^]]*\]/rt/' | sort -u | head -4 | tr '\n' ' ')
+  v=$(grep -c "^VIOLATION" ".work/sweep_$$.log")
+  first=$(grep "^VIOLATION" ".work/sweep_$$.log" | sed 's/.*obligation=\([^ ]*\).*/\1/' | sed 's/^rt\[[^]]*\]/rt/' | sort -u | head -4 | tr '\n' ' ')
   echo "$s exit=$rc violations=$v secs=$((end-start)) :: $first" >> "$out"
-  git -C /repo checkout -- . ; git -C /repo clean -fdq
+  git -C "$wt" checkout -q -- . ; git -C "$wt" clean -fdq
 done
+rm -f ".work/sweep_$$.log"
 echo done >> "$out"
